@@ -342,6 +342,47 @@ static uint64_t gen_program(unsigned prog, uint64_t seed) {
     a.bind(L1); a.ret(a64::x30);
     return digest_of(code);
   }
+  if (prog == 3) {            // AArch64 compiler: virtual registers of several types (shared tables / caches behind new_reg)
+    code.init(Environment(Arch::kAArch64));
+    a64::Compiler cc(&code);
+    FuncNode* f = cc.add_func(FuncSignature::build<int, int, int>());
+    a64::Gp a0 = cc.new_gp32(), a1 = cc.new_gp32();
+    f->set_arg(0, a0); f->set_arg(1, a1);
+    unsigned n = 6 + (unsigned)r.below(20);
+    a64::Gp acc = cc.new_gp64();
+    cc.mov(acc, 0);
+    for (unsigned i = 0; i < n; i++) {
+      if (i % 3 == 0) { a64::Gp g = cc.new_gp64(); cc.mov(g, uint64_t(r.below(1000))); cc.add(acc, acc, g); }
+      else if (i % 3 == 1) { a64::Gp g = cc.new_gp32(); cc.add(g, a0, a1); cc.add(acc.w(), acc.w(), g); }
+      else { a64::Vec v = cc.new_vec128(); cc.movi(v.b16(), uint32_t(r.below(200))); a64::Vec d = cc.new_vec_d(); cc.mov(d.d(), v.d(0)); a64::Gp t = cc.new_gp64(); cc.fmov(t, d.d()); cc.add(acc, acc, t); }
+    }
+    cc.ret(acc.w());
+    cc.end_func();
+    cc.finalize();
+    return digest_of(code);
+  }
+  if (prog == 4) {            // x86-64 compiler with mixed register types (gp8..gp64, xmm, ymm, k)
+    code.init(Environment(Arch::kX64));
+    x86::Compiler cc(&code);
+    FuncNode* f = cc.add_func(FuncSignature::build<int, int, int>());
+    x86::Gp a0 = cc.new_gp32(), a1 = cc.new_gp32();
+    f->set_arg(0, a0); f->set_arg(1, a1);
+    x86::Gp acc = cc.new_gp64();
+    cc.xor_(acc, acc);
+    unsigned n = 6 + (unsigned)r.below(20);
+    for (unsigned i = 0; i < n; i++) {
+      switch (i % 4) {
+        case 0: { x86::Gp g = cc.new_gp64(); cc.mov(g, int64_t(r.below(100000))); cc.add(acc, g); break; }
+        case 1: { x86::Vec v = cc.new_xmm(); cc.movd(v, a0); x86::Gp t = cc.new_gp32(); cc.movd(t, v); cc.add(acc.r32(), t); break; }
+        case 2: { x86::Gp g = cc.new_gp16(); cc.mov(g, a1.r16()); cc.add(acc.r16(), g); break; }
+        default: { x86::Vec v = cc.new_xmm(); cc.pxor(v, v); x86::Gp t = cc.new_gp64(); cc.movq(t, v); cc.add(acc, t); break; }
+      }
+    }
+    cc.ret(acc.r32());
+    cc.end_func();
+    cc.finalize();
+    return digest_of(code);
+  }
   // x86-64 compiler: a function with enough live values to spill
   code.init(Environment(Arch::kX64));
   x86::Compiler cc(&code);
@@ -361,14 +402,14 @@ static uint64_t gen_program(unsigned prog, uint64_t seed) {
 
 static void run_gen(FILE* out, unsigned rounds, unsigned nthreads, uint64_t seed) {
   // warm-up (the property's premise: host information initialised)
-  (void)CpuInfo::host(); (void)VirtMem::info(); gen_program(0, 1); gen_program(1, 1); gen_program(2, 1);
+  (void)CpuInfo::host(); (void)VirtMem::info(); gen_program(0, 1); gen_program(1, 1); gen_program(2, 1); gen_program(3, 1); gen_program(4, 1);
   vj::W w;
   w.beginObj().kv("e", "Reset").kv("threads", nthreads).kv("mode", "gen").endObj().emit(out);
   for (unsigned rd = 0; rd < rounds; rd++) {
     struct Job { unsigned prog; uint64_t seed; uint64_t conc = 0, solo = 0; };
     std::vector<std::vector<Job>> jobs(nthreads);
     vj::Rng r(seed + rd);
-    for (unsigned t = 0; t < nthreads; t++) for (unsigned k = 0; k < 6; k++) jobs[t].push_back(Job{(unsigned)r.below(3), r.next() % 100000});
+    for (unsigned t = 0; t < nthreads; t++) for (unsigned k = 0; k < 6; k++) jobs[t].push_back(Job{(unsigned)r.below(5), r.next() % 100000});
     std::vector<std::thread> th;
     std::atomic<int> go{0};
     for (unsigned t = 0; t < nthreads; t++) th.emplace_back([&, t] { while (!go.load()) {} for (auto& j : jobs[t]) j.conc = gen_program(j.prog, j.seed); });
